@@ -432,6 +432,49 @@ def check_case(case):
                     want = {"na_me": tag(Model.coerce_value(s + "\n"))}
                 r.require(got == want, key, "on load numeric-looking strings become int when they parse as int, else float; hyphens become underscores", want, got)
                 r.nontrivial.add(key)
+            # the same name/value lines in the shapes a file written by hand or by another program has: last line without newline, CRLF line
+            # ends, a blank line at the end
+            lines = [("k", "48.08150101"), ("n_pix", "2048"), ("big", "1.7976931348623157e+308"), ("tenth", "0.1"), ("phase", "Al2O3"), ("neg", "-7")]
+            for shape, text in (("no final newline", "\n".join("%s %s" % kv for kv in lines)), ("final newline", "".join("%s %s\n" % kv for kv in lines)),
+                                ("CRLF", "".join("%s %s\r\n" % kv for kv in lines)), ("blank last line", "".join("%s %s\n" % kv for kv in lines) + "\n"),
+                                ("single line, no newline", "only 12345")):
+                fn = os.path.join(tmp, "shape.par")
+                with open(fn, "w", newline="") as f:
+                    f.write(text)
+                want = {"only": tag(12345)} if shape.startswith("single") else {k_: tag(Model.coerce_value(v_)) for k_, v_ in lines}
+                for loader in ("read_par_file", "loadparameters"):
+                    try:
+                        if loader == "read_par_file":
+                            q = P.read_par_file(fn)
+                        else:
+                            q = P.parameters()
+                            q.loadparameters(fn)
+                        got = {k_: tag(x) for k_, x in q.get_parameters().items()}
+                    except Exception as ex:
+                        got = repr(ex)
+                    r.require(got == want, "fileshape:%s:%s" % (shape, loader), "name/value lines load to the same mapping whatever the line ends / the last line look like", want, got)
+                    r.nontrivial.add("fileshape:%s:%s" % (shape, loader))
+            # par objects declared once and used to fill several parameters objects (a module-level list of declarations): what one object
+            # does with them - any varylist - must not change what the next object starts with
+            decl = [("a", 1, False, True, 0.1), ("b_c", 2.5, True, True, 0.2), ("d", "x", False, False, None)]
+            canv = [d[0] for d in decl if d[3]]
+            for k_ in range(len(canv) + 1):
+                for vl in itertools.permutations(canv, k_):
+                    pars = [P.par(n_, v_, vary=va, can_vary=cv, stepsize=st) for n_, v_, va, cv, st in decl]
+                    first = P.parameters()
+                    for po in pars:
+                        first.addpar(po)
+                    first.set_varylist(list(vl))
+                    if vl:
+                        first.set_variable_values([7.0 + i_ for i_ in range(len(vl))])
+                    second = P.parameters()
+                    for po in pars:
+                        second.addpar(po)
+                    want = ({n_: tag(v_) for n_, v_, _, _, _ in decl}, [tag(v_) for n_, v_, va, _, _ in decl if va], [n_ for n_, _, _, cv, _ in decl if cv])
+                    got = ({k2: tag(x) for k2, x in second.get_parameters().items()}, [tag(x) for x in second.get_variable_values()], list(second.get_variable_list()))
+                    r.require(got == want, "shared-par-objects:first.set_varylist(%s)" % (list(vl),),
+                              "a parameters object filled from par objects that another object has used starts from the declared values and vary flags", want, got)
+                    r.nontrivial.add("shared-par:%s" % (vl,))
             # load into an object that already has values: only the listed names change
             p = P.parameters(keep=3, na_me="old")
             fn = os.path.join(tmp, "m.par")
